@@ -1,5 +1,25 @@
 /-
   C08 — property theorems (model and spec: ShelxModel/C08.lean).
+
+  Quantified over ALL files (lists of lines of the three kinds), ALL histories (lists of `Op` with arbitrary arguments:
+  ids, positions and handles that do not exist included; reads of the same or other files anywhere in the history) and
+  ALL previous states of the object. No length bound: induction over the op list with the structural invariant `WF`.
+
+  For the repaired code (`repaired`: fixes/C08_1 identity search, fixes/C08_2 rename clears the name cache):
+    parse_establishes_inv     Inv8 (read f s)                                     for every f and every prior state s
+    op_preserves_inv          WF s → WF (step op s) ∧ Inv8 (step op s)            for every op
+    history_inv               Inv8 (run ops (read f s0))                          for every f, ops, s0
+    delete_removes_requested  a.delete() / del atoms[a.atomid] removes exactly the atom asked for (so `gone` is not vacuous)
+    gone_not_in_view          filtered views (hydrogen/riding/Q-peak lists) never show a deleted atom
+    delLoop_fuel              the fuel of the modelled `for … enumerate(all_atoms)` loop is sufficient
+  For both variants:
+    reread_resets             (step (read f) (run ops s)) = read f init           the constructor re-run overwrites every field
+    history_independent       run (before ++ read f :: after) s = run (read f :: after) init
+  For the code as of the snapshot (`snapshot`), witnesses by `decide` (the harness replays them on the implementation):
+    snapshot_twins_share_atomid, snapshot_delete_second_deletes_first, snapshot_raw_line_shadows_atom,
+    snapshot_rename_stale, history_inv_fails_on_snapshot, history_inv_fails_without_{ident,rename}_fix
+  No hypothesis restricts files or histories; the only restriction is the op alphabet itself (`Op`): `replace_line`,
+  `add_atom`, `insert_frag_fend_entry` and assignments to `atom.resi` are not modelled.
 -/
 import ShelxModel.C08
 import Mathlib.Data.List.Basic
